@@ -66,7 +66,9 @@ def gen_case(rng, p_ops=0.85):
         for i in range(n):
             at += rng.randint(1, 30 if i == 0 else 12)
             case['ops'].append({'at': at, 'op': 'stop', 'state': rng.choice(['CANCELLED', 'CANCELLED', 'CANCELLED', 'ERROR', 'SUCCESS']),
-                                'which': rng.randint(0, 7), 'pref': rng.choice(['running', 'running', 'inner', 'root', 'any']),
+                                'which': rng.randint(0, 7),
+                                'pref': rng.choice(['running', 'running', 'inner', 'root', 'any', 'finished', 'item'] +
+                                                   (['again', 'again', 'parent', 'parent'] if i else [])),
                                 'msg': 'msg%d' % i})
     return case
 
@@ -249,11 +251,12 @@ def real_obs(world, mp):
         wi = (t['rt'] or {}).get('with_items')
         tasks.append([wrank.get(t['wf']), t['name'], t['state'], t['processed'], t['has_next'], t['error_handled'],
                       [wi.get('count'), wi.get('capacity')] if wi else None])
-    return {'execs': execs, 'tasks': tasks, 'pending': mp.pending_strs()}
+    return {'execs': execs, 'tasks': tasks, 'pending': mp.pending_strs(), 'raised': False}
 
 
 def model_obs(o):
-    return {'execs': o['execs'], 'tasks': [t[:7] for t in o['tasks']], 'pending': sorted(o['pending'])}
+    return {'execs': o['execs'], 'tasks': [t[:7] for t in o['tasks']], 'pending': sorted(o['pending']),
+            'raised': o['raised']}
 
 
 # ======================================================================================= run
@@ -286,12 +289,17 @@ def run_case(case, script=None, max_steps=500):
         events = []
         robs = []
         unsupported = None
+        last_target = [0]
 
         def do_stop(wf_rank, state, msg):
             ids = [i for i, k in mp.wf_rank.items() if k == wf_rank]
+            n_err = len(w.errors)
             w.op('stop_workflow', ids[0] if ids else 'no-such-id', state, msg)
             events.append({'ev': 'stop', 'wf': wf_rank, 'state': state, 'msg': msg})
             robs.append(real_obs(w, mp))
+            # the entry point raised (declared WorkflowException: invalid transition) and rolled back
+            robs[-1]['raised'] = len(w.errors) > n_err
+            last_target[0] = wf_rank
 
         def deliver(it, mi):
             if it[0] == 'p' and it[1].kind == 'action':
@@ -338,7 +346,7 @@ def run_case(case, script=None, max_steps=500):
             while oi < len(ops) and ops[oi]['at'] <= step:
                 o = ops[oi]
                 oi += 1
-                do_stop(_choose(robs[-1], o), o['state'], o['msg'])
+                do_stop(_choose(robs[-1], o, last_target[0]), o['state'], o['msg'])
             en = _enabled(w)
             if not en:
                 if oi < len(ops):
@@ -363,11 +371,22 @@ def _enabled(w):
     return [e for e in w.enabled() if not (e[0] == 'job' and e[1].func_name.endswith('_check_and_fix_integrity'))]
 
 
-def _choose(obs, o):
+def _choose(obs, o, last=0):
     """which execution an operator command addresses (by creation rank)"""
     ex = obs['execs']
     pref = o.get('pref', 'any')
     cand = list(range(len(ex)))
+    if pref == 'again':
+        return min(last, len(ex) - 1)
+    if pref == 'parent':
+        # the execution that owns the parent task of the last target
+        e = ex[min(last, len(ex) - 1)]
+        return obs['tasks'][e[1]][0] if e[1] is not None else 0
+    if pref == 'item':
+        cand = [i for i in cand if ex[i][3] == 'RUNNING' and ex[i][1] is not None
+                and obs['tasks'][ex[i][1]][6] is not None] or [i for i in cand if ex[i][3] == 'RUNNING'] or cand
+    if pref == 'finished':
+        cand = [i for i in cand if ex[i][3] in FINAL] or cand
     if pref == 'running':
         cand = [i for i in cand if ex[i][3] == 'RUNNING'] or cand
     elif pref == 'inner':
